@@ -496,7 +496,7 @@ func (n *simNode) kill() {
 		}
 	}
 	p.Log = p.Log[:cut]
-	p.Ldr = pLdr{}
+	p.Ldr = pLdr{NeQ: []pNe{}, Repls: []pRepl{}}
 	p.Fsm = pFsm{Cmds: []int{}}
 	n.downProj = &p
 	for id, repl := range n.l.repls {
